@@ -1443,8 +1443,8 @@ FINDING_MATCHERS = {
 }
 
 SUBCHECKS = [
-    HypSub("simultaneous_ops", _sim_case, _check_sim, _classify_sim, budget={"quick": 960, "thorough": 16000}),
-    HypSub("portable", _port_case, _check_port, _classify_port, budget={"quick": 800, "thorough": 16000}),
-    HypSub("sequential_ops", _seq_case, _check_seq, _classify_seq, budget={"quick": 400, "thorough": 8000}),
-    HypSub("redvar_ops", _var_case, _check_var, _classify_var, budget={"quick": 320, "thorough": 6000}),
+    HypSub("simultaneous_ops", _sim_case, _check_sim, _classify_sim, budget={"quick": 960, "thorough": 12000}),
+    HypSub("portable", _port_case, _check_port, _classify_port, budget={"quick": 800, "thorough": 12000}),
+    HypSub("sequential_ops", _seq_case, _check_seq, _classify_seq, budget={"quick": 400, "thorough": 6000}),
+    HypSub("redvar_ops", _var_case, _check_var, _classify_var, budget={"quick": 320, "thorough": 5000}),
 ]
